@@ -159,7 +159,7 @@ def r03_1(chk, repo, sf_write, SFile_open, Rec_open, cfun):
     guard = False
     for n in rules.raise_nodes(rcfg):
         for t, lab in rules.controlling_tests(rcfg.view(), n):
-            if "exists" in t and "r+" in t:
+            if "exists" in t and "r+" in t and lab == "T":
                 guard = True
     chk.ob("R03.1d", "esutil.recfile.Util.Recfile.open::r+-missing-file", guard, Rec_open.where(),
            "opening 'r+' on a missing file raises (instead of silently creating with a stale header)")
